@@ -56,8 +56,28 @@ pub fn uf_calls() -> usize {
     unsafe { UF_N }
 }
 
-/// Table mode (native replay, and Kani with `--cfg verif_uf_table`): Ackermann encoding at run time.
-#[cfg(any(not(kani), verif_uf_table))]
+/// Native (replay) mode: a fixed, well-mixing function. A counterexample found under Kani holds for *some* interpretation
+/// of the uninterpreted function; the replay runs the harness on the recorded inputs with this one. Violations that do not
+/// depend on particular hash values (almost all: wrong data flow, wrong decision, missing check) reproduce; one that needs a
+/// specific collision does not, and is then reported as inconclusive, never as a violation.
+#[cfg(not(kani))]
+#[inline(never)]
+pub fn mix(s: u64, a: u64, b: u64) -> u64 {
+    unsafe {
+        UF_N += 1;
+    }
+    let mut x = s ^ 0x9e37_79b9_7f4a_7c15;
+    for w in [a, b, s.rotate_left(17)] {
+        x = (x ^ w).wrapping_mul(0xbf58_476d_1ce4_e5b9);
+        x ^= x >> 29;
+        x = x.wrapping_mul(0x94d0_49bb_1331_11eb);
+        x ^= x >> 32;
+    }
+    x
+}
+
+/// Table mode (Kani with `--cfg verif_uf_table`, kept for experiments): Ackermann encoding at run time.
+#[cfg(all(kani, verif_uf_table))]
 #[inline(never)]
 pub fn mix(s: u64, a: u64, b: u64) -> u64 {
     unsafe {
